@@ -15,6 +15,8 @@ import (
 	"regexp"
 	"sort"
 	"strings"
+	"sync"
+	"sync/atomic"
 
 	log "github.com/go-spring/log"
 )
@@ -51,6 +53,23 @@ func c01init() {
 	add(log.RegisterLevel(-5, "NEG"))
 	add(log.RegisterLevel(math.MinInt32, "LOWEST"))
 	add(log.RegisterLevel(math.MaxInt32, "HIGHEST"))
+}
+
+// c01reregister gives the user levels NOTICE and FINE another code (k-th alternative) and updates the harness's tables.
+func c01reregister(k int) {
+	for _, x := range []struct {
+		name  string
+		codes []int32
+	}{{"Notice", []int32{350, 650, 250, 450}}, {"fine", []int32{50, 150, 850, 99}}} {
+		l := log.RegisterLevel(x.codes[k%len(x.codes)], x.name)
+		v := lvl{l.Name(), l.Code(), l}
+		c01byName[v.name] = v
+		for i := range c01levels {
+			if c01levels[i].name == v.name {
+				c01levels[i] = v
+			}
+		}
+	}
 }
 
 type rng struct{ min, max int32 }
@@ -291,6 +310,12 @@ func c01Worker(w *W) {
 	}
 	for ci := 0; ci < n; ci++ {
 		r := newRng(w.Spec.Seed, uint64(w.Spec.Shard)*1_000_003+uint64(ci)+5)
+		if ci%9 == 4 {
+			// between two configurations (nothing is live) the application registers two of its level names anew with other
+			// codes: ranges written with those names follow the registry as it is at the time of the Refresh
+			c01reregister(ci / 9)
+			w.Count("level_names_registered_anew_with_another_code", 2)
+		}
 		c := c01gen(r, ci, scratch)
 		if only >= 0 && ci != only {
 			continue
@@ -346,6 +371,43 @@ func c01Worker(w *W) {
 		})
 		if pv != nil {
 			w.Violate("C01:log-panic:"+c.Kind, fmt.Sprintf("a log call panicked under a %s configuration: %v\n%s", c.Kind, pv, trunc(st, 1500)), cs)
+		}
+		if pv == nil && ci%3 == 1 {
+			// the same routing question while 8 goroutines log events of DIFFERENT levels through the same logger at the same
+			// time (the rule is per event: whatever the fan-out keeps between events must not leak from one level to another)
+			const G, rounds = 8, 10
+			plans := make([][]c01call, G)
+			for g := 0; g < G; g++ {
+				for rd := 0; rd < rounds; rd++ {
+					for j := range c01levels {
+						l := c01levels[(j*7+g*3+rd)%len(c01levels)]
+						k++
+						plans[g] = append(plans[g], c01call{fmt.Sprintf("id-%dx%d-%d", w.Spec.Shard, ci, k), l, "Record(concurrent)"})
+					}
+				}
+				calls = append(calls, plans[g]...)
+			}
+			var wg sync.WaitGroup
+			var cpv atomic.Value
+			for g := 0; g < G; g++ {
+				wg.Add(1)
+				go func(plan []c01call) {
+					defer wg.Done()
+					if v, _ := catch(func() {
+						for _, cl := range plan {
+							log.Record(ctx, cl.level.l, tag, 1, log.Msg(cl.id))
+						}
+					}); v != nil {
+						cpv.Store(fmt.Sprint(v))
+					}
+				}(plans[g])
+			}
+			wg.Wait()
+			if v := cpv.Load(); v != nil {
+				pv = v
+				w.Violate("C01:log-panic:"+c.Kind, fmt.Sprintf("a concurrent log call panicked under a %s configuration: %v", c.Kind, v), cs)
+			}
+			w.Count("events_logged_concurrently_at_mixed_levels", int64(G*rounds*len(c01levels)))
 		}
 		if pv2, st2 := catch(log.Destroy); pv2 != nil {
 			w.Violate("C01:destroy-panic:"+c.Kind, fmt.Sprintf("Destroy panicked: %v\n%s", pv2, trunc(st2, 1200)), cs)
